@@ -141,7 +141,22 @@ def run(C, R):
                 root = fn
                 while root['kind'] == 'closure':
                     root = F.fn(root['parent'])
-                if is_constructor(root):
+                from rl import is_private_helper, lift_private_callers
+                CG_ = C.cg(cfg)
+                if is_private_helper(F, CG_, root) and not is_constructor(root):
+                    # a private helper (free function, provided method of a private trait): the operation that allocates
+                    # is whoever calls it - every one of them must be a place where allocation is allowed
+                    ups = [F.fn(c_) or {} for c_ in lift_private_callers(F, CG_, root['path'])]
+                    okc = bool(ups) and all(is_constructor(u) or (u.get('impl_adt') == GROWING and u.get('name') == 'push')
+                                            or (u.get('impl_adt') == FIXED and u.get('name') == 'push' and p.endswith('push_back'))
+                                            for u in ups)
+                    if okc:
+                        R.ok('C18.B', subj + '|private helper of constructors / the stated exceptions')
+                    else:
+                        R.fail('C18.B', [fn['path'], p],
+                               '%s calls %s (%s) and is reached from %s: a runtime operation of a non-growing flavour '
+                               'allocates' % (fn['path'], p, cls, [u.get('path') for u in ups][:4]), F.loc(fn, t['ln']))
+                elif is_constructor(root):
                     R.ok('C18.B', subj + '|constructor', {'site': fn['path'], 'callee': p, 'class': cls,
                                                           'allowed_because': 'constructor (no self receiver)'})
                 elif root.get('impl_adt') == GROWING and root.get('name') == 'push':
@@ -183,6 +198,9 @@ def run(C, R):
                         break
         for p in sorted(allocating):
             fn = F.fn(p)
+            from rl import is_private_helper as _iph
+            if _iph(F, CG, fn) and not is_constructor(fn):
+                continue     # transparent: its callers are in the set too and are judged
             if is_constructor(fn) or (fn.get('impl_adt') in (GROWING, FIXED) and fn.get('name') == 'push'):
                 R.ok('C18.B', '%s|transitively allocating|constructor or stated exception|%s' % (cfg, p))
             else:
